@@ -39,7 +39,7 @@ func (c20) Describe() core.Info {
 }
 
 func (c20) Gen(r *rand.Rand, tier string, i int) any {
-	o := gen.ProgOpts{Negation: true, Compare: true, Functions: r.Intn(2) == 0, Lists: r.Intn(3) == 0, Wildcards: r.Intn(2) == 0, Shuffle: 5, FnInAtoms: r.Intn(2) == 0}
+	o := gen.ProgOpts{Negation: true, Compare: true, Functions: r.Intn(2) == 0, Lists: r.Intn(3) == 0, Wildcards: r.Intn(2) == 0, Shuffle: 5, FnInAtoms: r.Intn(2) == 0, Mix: r.Intn(3) == 0}
 	p := gen.RandProgram(r, o)
 	return progCase{Prog: p, Text: progText(p)}
 }
@@ -51,9 +51,19 @@ func (c20) Decode(raw json.RawMessage) (any, error) {
 }
 
 func c20Exec(c progCase, res *core.Result) (skip string, fail *evalFail) {
+	// EvalProgramNaive only accepts the hash-keyed SimpleInMemoryStore. A difference that goes with
+	// hash-equal atoms in one predicate of the model is the known store defect F8 (both runs lose one
+	// atom of the pair, which one depends on the order of derivation), not an evaluator difference.
+	const kind = "simple"
 	pi, err := analyze(c.Prog, false)
 	if err != nil {
 		return "analysis-rejected", nil
+	}
+	// EvalProgramNaive has no fact limit: a program whose model is not small (a minimisation step may
+	// delete the guard of a counting rule) is not submitted to it.
+	rr, rerr := ref.Eval(refProgram(c.Prog), ref.Options{MaxFacts: 600, MaxSteps: 150_000})
+	if errors.Is(rerr, ref.ErrTooLarge) || errors.Is(rerr, ref.ErrBudget) {
+		return "model-not-small", nil
 	}
 	s1 := factstore.NewSimpleInMemoryStore()
 	s2 := factstore.NewSimpleInMemoryStore()
@@ -98,9 +108,7 @@ func c20Exec(c progCase, res *core.Result) (skip string, fail *evalFail) {
 	}
 	// who is wrong?
 	blame := "undetermined"
-	var rr *ref.Result
-	if r0, err := ref.Eval(refProgram(c.Prog), ref.Options{}); err == nil {
-		rr = r0
+	if rerr == nil {
 		want := refSet(rr)
 		ma, ea := canon.Diff(want, a, 1)
 		mb, eb := canon.Diff(want, b, 1)
@@ -114,8 +122,11 @@ func c20Exec(c progCase, res *core.Result) (skip string, fail *evalFail) {
 		case !okA && !okB:
 			blame = "both"
 		}
-	} else if errors.Is(err, ref.ErrUnsafe) {
+	} else if errors.Is(rerr, ref.ErrUnsafe) {
 		blame = "undetermined(ref-unsafe)"
+	}
+	if hashKeyed(kind) && rr != nil && hashCollisions(refSet(rr)) {
+		return "", &evalFail{"hash-collision:" + kind, fmt.Sprintf("on the %s store the final stores differ: only naive %v, only semi-naive %v; the model holds hash-equal atoms in one predicate, which this store conflates", kind, onlyNaive, onlySemi)}
 	}
 	return "", &evalFail{"stores-differ:" + blame + "-wrong" + c20Cause(c, blame), fmt.Sprintf("final stores differ: only naive %v, only semi-naive %v (reference blames: %s)", onlyNaive, onlySemi, blame)}
 }
